@@ -1632,6 +1632,43 @@ pub fn c20(tier: Tier) -> Vec<Case> {
         let inputs: Vec<String> = ["bcx", "bc", "b", "BCX", "bcxb", "bcb", "BC", "bC", ""].iter().map(|s| s.to_string()).collect();
         b.add("pure/insensitive-literal", g, InputSpec::List(inputs));
     }
+    // runs of blanks of every length around the machine word sizes, with one near-miss character (vertical tab) at every
+    // place in the run: parsed from a buffer at every start address modulo 16 (history_case: placements), because what is
+    // skipped is a function of the text, not of where the text lies in memory
+    {
+        let g = Grammar {
+            rules: vec![
+                Rule::normal("Root", vec![Directive::Export], seq(vec![star(field("words", "Word")), Expr::Eoi])),
+                Rule::normal("Word", vec![Directive::String, Directive::NoSkipWs], plus(range('a', 'z'))),
+            ],
+        };
+        let mut inputs: Vec<String> = Vec::new();
+        let (lo, hi) = if tier == Tier::Quick { (6usize, 17usize) } else { (0usize, 34usize) };
+        for len in lo..=hi {
+            inputs.push(format!("ab{}cd", " ".repeat(len)));
+            for at in 0..len {
+                for near in ['\u{b}', '\u{0}'] {
+                    if near == '\u{0}' && tier == Tier::Quick {
+                        continue;
+                    }
+                    let mut run: Vec<char> = vec![' '; len];
+                    run[at] = near;
+                    inputs.push(format!("ab{}cd", run.iter().collect::<String>()));
+                }
+            }
+        }
+        if tier == Tier::Thorough {
+            for len in 1..=10usize {
+                for bits in 0..(1u32 << len) {
+                    let run: String = (0..len).map(|i| if bits & (1 << i) != 0 { '\u{b}' } else { '\t' }).collect();
+                    inputs.push(format!("ab{run}cd"));
+                }
+            }
+        }
+        if b.add("pure/whitespace-runs", g, InputSpec::List(inputs)) {
+            b.last().note = "placement-only".into();
+        }
+    }
     // a grammar with a memoized rule whose cache hit shows in the reported error, and a rule with a check function
     // (a scheduling point also for a parse that runs through `parse_with_trace`)
     {
